@@ -78,6 +78,19 @@ impl Record {
         self.parent_list.push(parent_id);
     }
 
+    /// The first class among the ancestors of this record that `other_id` is, or derives from.
+    pub fn common_class(&self, symbol_map: &SymbolMap, other_id: RecordId) -> Option<RecordId> {
+        let other = symbol_map.record(other_id);
+        for parent_id in &self.parent_list {
+            if *parent_id == other_id || other.is_subclass_of(symbol_map, *parent_id) {
+                return Some(*parent_id);
+            }
+        }
+        self.parent_list
+            .iter()
+            .find_map(|parent_id| symbol_map.record(*parent_id).common_class(symbol_map, other_id))
+    }
+
     pub fn is_subclass_of(&self, symbol_map: &SymbolMap, other_id: RecordId) -> bool {
         if self.parent_list.contains(&other_id) {
             return true;
